@@ -135,6 +135,7 @@ TReturn == /\ Is("return")
                       \cup If(E.same_buf = 0 \/ E.cons_buf = 1, "buffer")
                       \cup If(~Descent \/ E.obj_lb <= obj0, "start")
                       \cup If(~Descent \/ E.obj_lb <= obj, "descent")
+                      \cup If(E.zc = 1, "zero_col_zero")
                       \cup If(E.nobj = nh, "hist_len")
                       \cup If(nh = 0 \/ nh # E.nobj \/ PrefixEq(E.objs, hist, Min(shown, nh)),
                               "hist_ret")
@@ -150,10 +151,16 @@ TReturn == /\ Is("return")
 \* the solver raised: judged by the API-level checks (C13/C19); here only the skeleton
 TRaise == /\ Is("raise")
           /\ phase' = "done"
-          /\ Flag({"raised"})
+          /\ Flag({"raised"} \cup If(E.expl = 1, "explained_error"))
           /\ UNCHANGED <<obj, obj0, dig, digOuter, epObj, epBobj, epDig, hist, nws, moved>> /\ Step
 
-Known == {"init", "outer", "ws", "epoch", "aa", "record", "return", "raise"}
+\* the worker running the solver hung (killed by the watchdog) or died: observations of the parent
+THang == /\ l <= Len_ /\ E.e \in {"hang", "died"}
+         /\ phase' = "done"
+         /\ Flag(IF E.e = "hang" THEN {"terminates"} ELSE {"alive"})
+         /\ UNCHANGED <<obj, obj0, dig, digOuter, epObj, epBobj, epDig, hist, nws, moved>> /\ Step
+
+Known == {"init", "outer", "ws", "epoch", "aa", "record", "return", "raise", "hang", "died"}
 TUnknown == /\ l <= Len_ /\ E.e \notin Known
             /\ Flag({"skeleton"})
             /\ UNCHANGED <<phase, obj, obj0, dig, digOuter, epObj, epBobj, epDig, hist, nws, moved>>
@@ -166,7 +173,7 @@ TEnd == /\ l = Len_ + 1
         /\ UNCHANGED <<tid, phase, obj, obj0, dig, digOuter, epObj, epBobj, epDig, hist, nws,
                        moved, bad>>
 
-Next == TInit \/ TOuter \/ TWs \/ TEpoch \/ TAA \/ TRecord \/ TReturn \/ TRaise \/ TUnknown \/ TEnd
+Next == TInit \/ TOuter \/ TWs \/ TEpoch \/ TAA \/ TRecord \/ TReturn \/ TRaise \/ THang \/ TUnknown \/ TEnd
 Spec == Init /\ [][Next]_vars
 
 \* sanity of the monitor itself (checked by TLC on every batch)
